@@ -211,6 +211,7 @@ def check(prop_id, tier, master=None, jobs=None, budget=None, count=None,
         count = int(os.environ.get('VERIF_COUNT', prop.max_runs.get(tier, 10**9)))
     deadline = t0 + budget
     agg = new_agg()
+    det = determinism_selfcheck(prop, prop_id, tier, master)
     chunk = prop.chunk
     enum_n = 0
     if hasattr(prop, 'enum_cases'):
@@ -273,12 +274,42 @@ def check(prop_id, tier, master=None, jobs=None, budget=None, count=None,
             for f in pending:
                 f.cancel()
     wall = _wall() - t0
+    if det and not det.get('identical'):
+        broken = (broken or '') + ' determinism self-check failed: %r' % det
     return finish_check(prop, tier, master, agg, wall, broken, quiet,
-                        exhaustive_enum and not enum_skipped, enum_n, jobs)
+                        exhaustive_enum and not enum_skipped, enum_n, jobs,
+                        det)
+
+
+def determinism_selfcheck(prop, prop_id, tier, master, n=3):
+    """reduced determinism self-test inside every check: the first seeds
+    are executed twice in a forked child and the event-log digests compared
+    (the full test is `selftest determinism`)"""
+    ctx = multiprocessing.get_context('fork')
+    try:
+        with cf.ProcessPoolExecutor(max_workers=1, mp_context=ctx) as ex:
+            return ex.submit(_det_worker, prop_id, tier, master, n).result(
+                timeout=300)
+    except Exception as e:      # pragma: no cover
+        return {'identical': False, 'error': repr(e)}
+
+
+def _det_worker(prop_id, tier, master, n):
+    prop = get_prop(prop_id)
+    out = []
+    for rnd in range(2):
+        ds = []
+        for i in range(n):
+            seed = run_seed(master, prop_id, tier, i)
+            case = prop.gen(random.Random(seed), tier, seed)
+            ds.append(prop.run(case).get('digest'))
+        out.append(ds)
+    return {'seeds': n, 'identical': out[0] == out[1],
+            'digests_present': sum(1 for d in out[0] if d)}
 
 
 def finish_check(prop, tier, master, agg, wall, broken, quiet, enum_complete,
-                 enum_n, jobs):
+                 enum_n, jobs, det=None):
     known = load_known()
     lines = []
     known_hits = Counter()
@@ -331,6 +362,7 @@ def finish_check(prop, tier, master, agg, wall, broken, quiet, enum_complete,
             lines.append(he['tb'])
     ev = build_evidence(prop, tier, master, agg, wall, reported, known_hits,
                         enum_complete, enum_n, jobs, broken)
+    ev['coverage']['determinism_selfcheck'] = det
     os.makedirs(EVIDENCE_DIR, exist_ok=True)
     evpath = os.path.join(EVIDENCE_DIR, '%s.json' % prop.id)
     with open(evpath + '.tmp', 'w') as f:
